@@ -330,6 +330,17 @@ class Fn:
                 and f.value.value.id=="self" and not e.keywords and not any(isinstance(a,ast.Lambda) for a in e.args)):
             obj=self.ex(f.value,binds); args=[self.ex(a,binds) for a in e.args]; t=self.tmp()
             binds.append("%s <- py_call (VFun (of_string %s)) (VList [%s]) ;; "%(t,cq(f.attr),";".join([obj]+args))); return t
+        # self.<field>.<method>(...) where the field is known to hold an object of a class that has its own generated unit
+        if (isinstance(f,ast.Attribute) and isinstance(f.value,ast.Attribute) and isinstance(f.value.value,ast.Name) and f.value.value.id=="self"
+                and f.value.attr in getattr(self.mod,"field_classes",{}) and not e.keywords):
+            C,xm,coqmod=self.mod.field_classes[f.value.attr]
+            k=xm.find_method(C,f.attr)
+            if k is None: raise Unsupported("method %s of %s"%(f.attr,C))
+            callee=xm.classes[k]["methods"][f.attr]
+            obj=self.ex(f.value,binds); args=self.resolve_args(callee,e,binds,True)
+            t=self.tmp(); r=self.tmp(); o=self.tmp()
+            binds.append("%s <- %s.%s py_call fuel %s %s ;; p_ <- unpack2 %s ;; let '(%s, %s) := p_ in "%(t,coqmod,gname(k,f.attr),obj," ".join(args),t,r,o))
+            binds.append(self.store(f.value,o)); return r
         # self.<field>.<method>(...) on an object of another class, uninterpreted, answering (result, updated object)
         if (isinstance(f,ast.Attribute) and f.attr in getattr(self.mod,"method_thread_oracles",()) and isinstance(f.value,ast.Attribute) and isinstance(f.value.value,ast.Name)
                 and f.value.value.id=="self" and not e.keywords):
@@ -557,15 +568,18 @@ class Fn:
 
 
 def translate_module(path, pymod, wanted=None, oracles=(), xmods=None, external=(), requires=(), method_oracles=(), xfuncs=None, thread_oracles=None, method_thread_oracles=(), io_lists=False,
-                     param_classes=None, sub_callbacks=False):
+                     param_classes=None, sub_callbacks=False, field_classes=None):
     """returns (coq text, translated names, {failed name: reason}).
     xmods: {python module name as written in the source: (python module object, Coq module holding its generated functions)};
     external: functions of this module that another generated unit already defines (named in `requires`): translated for their signature, not emitted"""
     mod=Mod(path,pymod); mod.oracles=set(oracles); mod.method_oracles=set(method_oracles)
     mod.xmods={k:(Mod(v[0].__file__,v[0]),v[1]) for k,v in (xmods or {}).items()}
     mod.xfuncs={k:(Mod(v[0].__file__,v[0]),v[1]) for k,v in (xfuncs or {}).items()}
-    for k,(xm,cm) in mod.xfuncs.items(): xm.method_oracles=set(); xm.oracles=set()
+    for k,v in (xfuncs or {}).items():
+        xm=mod.xfuncs[k][0]; xm.method_oracles=set(); xm.oracles=set()
+        for a,b in (v[2] if len(v)>2 else {}).items(): setattr(xm,a,b)      # how that module's own unit is configured (decides which parameters it threads)
     mod.param_classes=dict(param_classes or {}); mod.sub_callbacks=sub_callbacks
+    mod.field_classes={k:(v[0],Mod(v[1].__file__,v[1]),v[2]) for k,v in (field_classes or {}).items()}
     mod.thread_oracles=dict(thread_oracles or {}); mod.method_thread_oracles=set(method_thread_oracles); mod.io_lists=io_lists
     out=["(* GENERATED by tools/translate.py from %s -- do not edit *)"%path,"From Coq Require Import List ZArith String.","Require Import PyLib.","Import ListNotations.","Local Open Scope Z_scope.","Local Open Scope string_scope.","",
          "(* every generated function takes py_call: the call of a function-valued field (dispatcher / oracle) *)",""]
@@ -604,7 +618,7 @@ def translate_module(path, pymod, wanted=None, oracles=(), xmods=None, external=
     if any(w in emitted_text for w in ("unpack3","py_try_ve","py_str_repeat","py_b2a_hex_encode","py_lstrip","py_rstrip","py_split_ws","py_stitch")): hdr_extra.append("Require Import PyLib2.")
     for r in requires: hdr_extra.append("Require Import %s."%r)
     for k,(xm,cm) in mod.xmods.items(): hdr_extra.append("Require %s."%cm)
-    for cm in sorted(set(v[1] for v in mod.xfuncs.values())): hdr_extra.append("Require %s."%cm)
+    for cm in sorted(set(v[1] for v in mod.xfuncs.values())|set(v[2] for v in mod.field_classes.values())): hdr_extra.append("Require %s."%cm)
     out[out.index("")+0:out.index("")+0]=hdr_extra
     for k,txt in stubs.items():
         out.append(txt); out.append("")
